@@ -141,3 +141,21 @@ add("C33", "norm ord=0 branch removed", "nifty/re/tree_math/vector_math.py", "  
 add("C33", "smap returns input for unmapped output", "nifty/re/custom_map.py", "            out.append(el[0])", "            out.append(unmapped.pop(0))", "R33.3")
 add("C33", "smap moves output to the input axis order", "nifty/re/custom_map.py", "out.append(_moveaxis(el, 0, i))", "out.append(_moveaxis(el, i, 0))", "R33.3")
 VARIANTS = V
+
+SDP = "nifty/re/num/stats_distributions.py"
+SPDP = "nifty/cl/library/special_distributions.py"
+add("C30", "normal inverse multiplies", SDP, "    return (y - mean) / std", "    return (y - mean) * std", "R30.1")
+add("C30", "lognormal moments forget the half", SDP, "logmean = log(mean) - 0.5 * logstd**2", "logmean = log(mean) - logstd**2", "R30.1")
+add("C30", "laplace upper branch uses the wrong tail", SDP, "res -= (xi > 0) * (norm_logcdf(-xi) + jnp.log(2))", "res -= (xi > 0) * (norm_logcdf(xi) + jnp.log(2))", "R30.1")
+add("C30", "uniform scale is a_max", SDP, "    scale = a_max - a_min", "    scale = a_max", "R30.1")
+add("C30", "lognormal prior swaps moments", SDP, "return Partial(_standard_to_lognormal, log_mean=_log_mean, log_std=_log_std)",
+    "return Partial(_standard_to_lognormal, log_mean=_log_std, log_std=_log_mean)", "R30.1")
+add("C30", "invgamma scale applied twice", SDP, "        if loc == 0.0:\n            return standard_to_invgamma_interp(x) * scale\n        return standard_to_invgamma_interp(x)",
+    "        return standard_to_invgamma_interp(x) * scale", "R30.1")
+add("C30", "classic uniform jacobian without scale", SPDP, "jac = makeOp(Field(self._domain, norm._pdf(xval)*self._scale))", "jac = makeOp(Field(self._domain, norm._pdf(xval)))", "R30.2")
+add("C30", "classic uniform inverse forgets loc", SPDP, "res = norm._ppf((field.val - self._loc) / self._scale)", "res = norm._ppf(field.val / self._scale)", "R30.2")
+add("C30", "laplace jacobian branches swapped", SPDP, "np.where(y > 0.5, 1/(1-y), 1/y)", "np.where(y > 0.5, 1/y, 1/(1-y))", "R30.2")
+add("C30", "inverse gamma mean formula", SPDP, "self._mean = self._q / (self._alpha - 1)", "self._mean = self._q / (self._alpha + 1)", "R30.2")
+add("C30", "gamma alpha from mean and var", SPDP, "            alpha = mean / theta", "            alpha = mean * theta", "R30.2")
+add("C30", "classic lognormal moments", "nifty/cl/utilities.py", "logmean = np.log(mean) - logsigma**2 / 2", "logmean = np.log(mean) + logsigma**2 / 2", "R30.2")
+VARIANTS = V
